@@ -102,6 +102,27 @@ package silence
 //@   ensures [prefix] forall i int :: 0 <= i && i < old(len(s.vi)) ==> s.vi[i] == old(s.vi[i])
 //@   ensures [mi-others] forall id string :: id != sil.Id ==> (id in s.mi) == old(id in s.mi) && s.mi[id] == old(s.mi[id])
 //@   ensures [fields] s.st == old(s.st) && s.mi == old(s.mi)
+//@   ensures [order-kept] old(viSorted(s)) ==> viSorted(s)
+//@   assigns s.version, s.vi, s.vi[*], s.mi[*]
+
+// C02 (added with the fix for the revived-silence defect): a silence that changed under an id which is already
+// indexed gets a NEW version at the end of the version index (its old entry is removed) and its matchers are
+// recompiled, so every cache entry - whose version is at most the old store version - sees it as "newer".
+//@ func (*Silences).reindexSilence
+//@   props C02 C09
+//@   requires s != nil && s.mi != nil && sil != nil && s.metrics != nil && s.metrics.matcherCompileIndexSilenceErrorsTotal != nil && s.logger != nil
+//@   ensures [version] s.version == old(s.version) + 1
+//@   ensures [moved-to-the-end] len(s.vi) >= 1 && s.vi[len(s.vi) - 1].id == sil.Id && s.vi[len(s.vi) - 1].version == s.version
+//@   ensures [one-entry-replaced] len(s.vi) == old(len(s.vi)) + 1 || len(s.vi) == old(len(s.vi))
+//@   ensures [order-kept] old(viSorted(s)) ==> viSorted(s)
+//@   ensures [fields] s.st == old(s.st) && s.mi == old(s.mi)
+//@   ensures [mi-others] forall id string :: id != sil.Id ==> (id in s.mi) == old(id in s.mi) && s.mi[id] == old(s.mi[id])
+//@   at call indexSilence assert [one-entry-removed] forall i int :: 0 <= i && i < len(s.vi) ==> s.vi[i] == (i < rangeindex1 + 1 ? old(s.vi[i]) : old(s.vi[i + 1]))
+//@   at call indexSilence assert [removal-keeps-bound] old(viSorted(s)) ==> (forall i int :: 0 <= i && i < len(s.vi) ==> s.vi[i].version <= s.version)
+//@   at call indexSilence assert [removal-keeps-order] old(viSorted(s)) ==> (forall i int, j int :: 0 <= i && i < j && j < len(s.vi) ==> s.vi[i].version < s.vi[j].version)
+//@   loop 1 invariant rangeindex < len(s.vi) && s.vi == old(s.vi) && s.version == old(s.version) && s.mi == old(s.mi) && s.st == old(s.st)
+//@   loop 1 invariant forall i int :: 0 <= i && i < len(s.vi) ==> s.vi[i] == old(s.vi[i])
+//@   loop 1 invariant forall id string :: (id in s.mi) == old(id in s.mi) && s.mi[id] == old(s.mi[id])
 //@   assigns s.version, s.vi, s.vi[*], s.mi[*]
 
 // C09: merging a received batch. Never replaces a newer version by an older one, never accepts a version past its
@@ -116,9 +137,12 @@ package silence
 //@   ensures [newer-only] forall k string :: old(k in s.st) && s.st[k] != old(s.st[k]) ==> updAt(s, k) > old(updAt(s, k))
 //@   ensures [unexpired-only] forall k string :: k in s.st && (!old(k in s.st) || s.st[k] != old(s.st[k])) ==> tsT(s.st[k].ExpiresAt) >= ret("nowUTC")
 //@   ensures [error-unchanged] result != nil ==> dom(s.st) == old(dom(s.st)) && vals(s.st) == old(vals(s.st)) && s.version == old(s.version)
-//@   ensures [indexed-once-per-added] count("indexSilence") == counttrue1("state).merge")
+//@   ensures [indexed-once-per-added] count(").indexSilence") == counttrue1("state).merge")
 //@   at call broadcast assert [gossip-only-changes] ret("state).merge")
-//@   at call indexSilence assert [index-the-added] ret1("state).merge")
+//@   at call ).indexSilence assert [index-the-added] ret1("state).merge")
+//@   at call reindexSilence assert [reindex-the-updated] ret("state).merge") && !ret1("state).merge") && arg1 == e.Silence
+//@   ensures [reindexed-once-per-update] count("reindexSilence") == counttrue0("state).merge") - counttrue1("state).merge")
+//@   ensures [version-moves-with-every-change] s.version == old(s.version) + counttrue0("state).merge")
 //@   loop 1 invariant s.st == old(s.st) && s.mi == old(s.mi) && storeInv(s) && s.st != st
 //@   loop 1 invariant forall k string :: old(k in s.st) ==> k in s.st && updAt(s, k) >= old(updAt(s, k))
 //@   loop 1 invariant forall k string :: old(k in s.st) && s.st[k] != old(s.st[k]) ==> updAt(s, k) > old(updAt(s, k))
@@ -126,7 +150,8 @@ package silence
 //@   loop 1 invariant forall k string :: k in st ==> st[k] != nil && st[k].Silence != nil && st[k].Silence.Id == k
 //@   loop 1 invariant forall k string :: k in st ==> fresh(st[k].Silence)
 //@   loop 1 invariant s.version >= old(s.version)
-//@   loop 1 invariant count("indexSilence") == counttrue1("state).merge")
+//@   loop 1 invariant count(").indexSilence") == counttrue1("state).merge")
+//@   loop 1 invariant count("reindexSilence") == counttrue0("state).merge") - counttrue1("state).merge") && s.version == old(s.version) + counttrue0("state).merge")
 //@   assigns s.st[*], s.mi[*], s.vi, s.vi[*], s.version, silencepb.Silence.Comment, silencepb.Silence.CreatedBy, silencepb.Silence.Comments
 //@   noeffect broadcast
 
@@ -137,7 +162,8 @@ package silence
 //@   requires s != nil && storeInv(s) && wfSil(msil) && s.broadcast != nil && s.metrics != nil && metricsOK(s)
 //@            && s.metrics.matcherCompileIndexSilenceErrorsTotal != nil && s.logger != nil
 //@   assumes len(msil.Silence.MatcherSets) > 0 ==> msil.Silence.MatcherSets[0] != nil
-//@   ensures [err] result2 != nil ==> !result0 && !result1 && dom(s.st) == old(dom(s.st)) && vals(s.st) == old(vals(s.st)) && s.version == old(s.version) && s.vi == old(s.vi) && !called("broadcast")
+//@   ensures [err] result2 != nil ==> !result0 && !result1 && dom(s.st) == old(dom(s.st)) && vals(s.st) == old(vals(s.st)) && s.version == old(s.version) && s.vi == old(s.vi)
+//@   ensures [err-no-gossip] result2 != nil ==> !called("broadcast")
 //@   ensures [changed] result2 == nil ==> result0 == old(sAccepts(s.st, msil, now)) && result1 == (result0 && !old(msil.Silence.Id in s.st))
 //@   ensures [stored] result2 == nil && result0 ==> dom(s.st) == setadd(old(dom(s.st)), old(msil.Silence.Id)) && vals(s.st) == upd(old(vals(s.st)), old(msil.Silence.Id), msil)
 //@   ensures [unchanged] result2 == nil && !result0 ==> dom(s.st) == old(dom(s.st)) && vals(s.st) == old(vals(s.st))
@@ -173,8 +199,11 @@ package silence
 //@   ensures [kept] old(id in s.st) ==> id in s.st
 //@   ensures [takes-effect] old(id in s.st) && result == nil && old(updAt(s, id)) < ret("nowUTC")
 //@             ==> tsT(s.st[id].Silence.EndsAt) <= ret("nowUTC") && tsT(s.st[id].Silence.StartsAt) <= ret("nowUTC")
+//@   ensures [takes-effect-by-return] old(id in s.st) && result == nil && old(updAt(s, id)) < old(clock())
+//@             ==> tsT(s.st[id].Silence.EndsAt) <= clock() && tsT(s.st[id].Silence.StartsAt) <= clock()
 //@   ensures [history] old(id in s.st) && result == nil ==> s.st[id].Silence.Id == id && s.st[id].Silence.MatcherSets == old(s.st[id].Silence.MatcherSets)
-//@             && (let n = ret("nowUTC") in old(stateAt(s.st[id].Silence, n)) == SilenceStateActive ==> s.st[id].Silence.StartsAt == old(s.st[id].Silence.StartsAt))
+//@   ensures [history-start] old(id in s.st) && result == nil ==>
+//@             (let n = ret("nowUTC") in old(stateAt(s.st[id].Silence, n)) == SilenceStateActive ==> s.st[id].Silence.StartsAt == old(s.st[id].Silence.StartsAt))
 //@   ensures [inv] storeInv(s)
 //@   assigns s.st[*], s.mi[*], s.vi, s.vi[*], s.version
 //@   noeffect broadcast
@@ -208,7 +237,7 @@ package silence
 //@   ensures [old-kept] forall k string :: old(k in s.st) ==> k in s.st
 //@   ensures [replaced-is-expired] let id0 = old(sil.Id) in let n2 = ret("nowUTC") in
 //@             result == nil && !(called("canUpdate") && ret("canUpdate")) && old(id0 in s.st) && old(stateAt(s.st[id0].Silence, n2)) != SilenceStateExpired && old(updAt(s, id0)) < n2
-//@             ==> tsT(s.st[id0].Silence.EndsAt) <= n2 && s.st[id0].Silence.Id == id0 && s.st[id0].Silence.MatcherSets == old(s.st[id0].Silence.MatcherSets)
+//@             ==> tsT(s.st[id0].Silence.EndsAt) <= clock() && s.st[id0].Silence.Id == id0 && s.st[id0].Silence.MatcherSets == old(s.st[id0].Silence.MatcherSets)
 //@   ensures [max-silences] result == nil && called("MaxSilences") && ret("MaxSilences") > 0 && !(called("canUpdate") && ret("canUpdate")) ==> len(s.st) <= ret("MaxSilences")
 //@   ensures [inv] storeInv(s)
 //@   assigns s.st[*], s.mi[*], s.vi, s.vi[*], s.version, sil.*
@@ -284,3 +313,244 @@ package silence
 //@   loop 1 invariant forall k string :: k in visited && k in st ==> inVi(vi, k) && k in mi
 //@   loop 1 invariant forall k string :: k in st ==> fresh(st[k].Silence) && (len(st[k].Silence.Comments) > 0 ==> st[k].Silence.Comments[0] != nil)
 //@   assigns s.st, s.mi, s.vi, s.version
+
+// ---- C02: the version index. Entries are ordered by strictly increasing version, none above the store's counter,
+// so "everything indexed after version v" is a suffix, found by binary search.
+//@ spec viSorted(s *Silences) bool = (forall i int, j int :: 0 <= i && i < j && j < len(s.vi) ==> s.vi[i].version < s.vi[j].version)
+//@     && (forall i int :: 0 <= i && i < len(s.vi) ==> s.vi[i].version <= s.version)
+
+//@ func (versionIndex).findVersionGreaterThan
+//@   props C02
+//@   requires forall i int, j int :: 0 <= i && i < j && j < len(s) ==> s[i].version <= s[j].version
+//@   ensures [range] 0 <= result0 && result0 <= len(s) && result1 == (result0 < len(s))
+//@   ensures [older-skipped] forall i int :: 0 <= i && i < result0 ==> s[i].version <= version
+//@   ensures [newer-scanned] forall i int :: result0 <= i && i < len(s) ==> s[i].version > version
+//@   assigns nothing
+
+// ---- C02 / C12: the query filters. Each is the closure the real Query runs per silence.
+// state filter: the silence's state at the query instant is one of the requested ones
+//@ func QState$1$1
+//@   props C02 C12
+//@   requires sil != nil && states != nil
+//@   after call slices.Contains assume res0 == (exists i int :: 0 <= i && i < len(arg0) && arg0[i] == arg1)
+//@   ensures [in-states] result1 == nil && result0 == (exists i int :: 0 <= i && i < len(deref(states)) && deref(states)[i] == stateAt(sil, now))
+//@   assigns nothing
+
+// label filter: decided by the compiled matchers filed under the silence's id; an unindexed silence is an error
+//@ func QMatches$1$1
+//@   props C02
+//@   requires sil != nil && s != nil && set != nil
+//@   assumes forall k string :: k in s.mi ==> (forall i int :: 0 <= i && i < len(s.mi[k]) ==> s.mi[k][i] != nil)
+//@   ensures [indexed] (sil.Id in s.mi) ==> result1 == nil && result0 == s.mi[sil.Id].Matches(deref(set))
+//@   ensures [unindexed-is-error] !(sil.Id in s.mi) ==> result1 == ErrNotFound
+//@   assigns nothing
+
+// QSince: remembers the version; refuses to be combined with QIDs
+//@ func QSince$1
+//@   props C02
+//@   requires q != nil && version != nil
+//@   ensures [since] result == nil ==> q.since == version && len(q.ids) == 0 && q.filters == old(q.filters) && q.ids == old(q.ids)
+//@   ensures [exclusive] old(len(q.ids)) != 0 ==> result != nil
+//@   assigns q.since
+
+// QIDs: appends the ids; refuses an empty list or a combination with QSince
+//@ func QIDs$1
+//@   props C02
+//@   requires q != nil && ids != nil
+//@   ensures [ids] result == nil ==> len(q.ids) == old(len(q.ids)) + len(deref(ids)) && q.since == nil && len(deref(ids)) > 0 && q.filters == old(q.filters)
+//@   ensures [ids-kept] result == nil ==> (forall i int :: 0 <= i && i < old(len(q.ids)) ==> q.ids[i] == old(q.ids[i]))
+//@   ensures [ids-appended] result == nil ==> (forall i int :: 0 <= i && i < len(deref(ids)) ==> q.ids[old(len(q.ids)) + i] == old(deref(ids)[i]))
+//@   ensures [exclusive] (old(q.since) != nil || len(deref(ids)) == 0) ==> result != nil
+//@   assigns q.ids, q.ids[*]
+
+// ---- C02 / C12: one silence against the query's filters (the closure appendIfFiltersMatch of query). Every filter
+// is asked about this silence, this store and this instant; the silence is appended (as a copy) exactly when all of
+// them say yes; a filter error stops the evaluation and is returned. Filters are function values: assumed not to
+// modify the store (proved for the repository's own filters above: assigns nothing).
+//@ func (*Silences).query$2
+//@   props C02 C12
+//@   requires sil != nil && q != nil && deref(q) != nil && s != nil && now != nil
+//@   requires forall k int :: 0 <= k && k < len(deref(q).filters) ==> deref(q).filters[k] != nil
+//@   at call dynamic:elem:field:filters assert [asks-about-this-silence] arg0 == sil && arg1 == deref(s) && arg2 == deref(now)
+//@   ensures [all-pass-appends] result1 == nil && counttrue0("dynamic:elem:field:filters") == len(deref(q).filters) ==> len(result0) == len(res) + 1
+//@   ensures [one-refuses-drops] counttrue0("dynamic:elem:field:filters") < len(deref(q).filters) ==> result0 == res
+//@   ensures [asked-in-order] count("dynamic:elem:field:filters") <= len(deref(q).filters) && counttrue0("dynamic:elem:field:filters") <= count("dynamic:elem:field:filters")
+//@   ensures [error-propagates] called("dynamic:elem:field:filters") && ret1("dynamic:elem:field:filters") != nil ==> result1 == ret1("dynamic:elem:field:filters") && result0 == res
+//@   ensures [appended-is-a-copy] len(result0) == len(res) + 1 ==> result0[len(res)] != nil && result0[len(res)].Id == sil.Id && result0[len(res)].StartsAt == sil.StartsAt && result0[len(res)].EndsAt == sil.EndsAt
+//@   ensures [at-most-one-more] (result0 == res || len(result0) == len(res) + 1) && (result1 != nil ==> result0 == res)
+//@   ensures [earlier-results-kept] forall i int :: 0 <= i && i < len(res) ==> result0[i] == old(res[i])
+//@   ensures [same-or-new-array] base(result0) == base(res) || fresh(result0)
+//@   loop 1 invariant rangeindex < len(deref(q).filters) && count("dynamic:elem:field:filters") == rangeindex + 1 && counttrue0("dynamic:elem:field:filters") == rangeindex + 1
+//@   loop 1 invariant called("dynamic:elem:field:filters") ==> ret1("dynamic:elem:field:filters") == nil
+//@   noeffect dynamic:elem:field:filters
+//@   assigns res[*]
+
+// ---- C02 / C12: the scan behind every query. With ids: every requested id that is stored is offered to the
+// filters, in the order given. Otherwise every entry of the version index from `start` on is offered, where start
+// is 0 or, with QSince(v), the first entry whose version exceeds v (all earlier entries have version <= v); nothing
+// is skipped and the scan stops early only on a filter error. The version returned is the store's current one.
+// Assumed here (representation invariant, established by the mutators' contracts and the paper argument in
+// DESIGN.md 4.2): every id in the version index is stored, non-nil, and the index is ordered by version.
+//@ func (*Silences).query
+//@   props C02 C12
+//@   requires s != nil && q != nil
+//@   assumes s.metrics != nil && s.metrics.queryScannedTotal != nil && s.metrics.querySkippedTotal != nil
+//@   assumes forall k int :: 0 <= k && k < len(q.filters) ==> q.filters[k] != nil
+//@   assumes forall i int :: 0 <= i && i < len(s.vi) ==> (s.vi[i].id in s.st) && s.st[s.vi[i].id] != nil && s.st[s.vi[i].id].Silence != nil
+//@   assumes forall k string :: k in s.st ==> s.st[k] != nil && s.st[k].Silence != nil
+//@   assumes forall i int, j int :: 0 <= i && i < j && j < len(s.vi) ==> s.vi[i].version <= s.vi[j].version
+//@   at call query$2 assert [offers-stored-silences-in-order] q.ids != nil
+//@        ? (rangeindex1 + 1 >= 0 && rangeindex1 + 1 < len(q.ids) && (q.ids[rangeindex1 + 1] in s.st) && arg1 == s.st[q.ids[rangeindex1 + 1]].Silence)
+//@        : (rangeindex2 + 1 >= 0 && arg1 == s.st[s.vi[(q.since != nil ? ret("findVersionGreaterThan") : 0) + rangeindex2 + 1].id].Silence)
+//@   ensures [version] result1 == s.version && s.version == old(s.version)
+//@   ensures [scans-everything-since] result2 == nil && q.ids == nil && q.since != nil && called("findVersionGreaterThan") && ret1("findVersionGreaterThan") ==>
+//@              count("query$2") == len(s.vi) - ret("findVersionGreaterThan")
+//@   ensures [scans-everything] result2 == nil && q.ids == nil && q.since == nil ==> count("query$2") == len(s.vi)
+//@   ensures [since-asks-the-index] q.ids == nil && q.since != nil ==> called("findVersionGreaterThan")
+//@   ensures [nothing-newer] result2 == nil && q.ids == nil && q.since != nil && !ret1("findVersionGreaterThan") ==> len(result0) == 0
+//@   ensures [results-bounded] result2 == nil ==> len(result0) <= count("query$2")
+//@   ensures [error-means-no-results] result2 != nil ==> result0 == nil
+//@   ensures [results-non-nil] forall i int :: 0 <= i && i < len(result0) ==> result0[i] != nil
+//@   ensures [results-are-copies] result0 == nil || fresh(result0)
+//@   ensures [error-propagates] called("query$2") && ret1("query$2") != nil ==> result2 == ret1("query$2") && result0 == nil
+//@   at call findVersionGreaterThan assert [since-version] arg0 == s.vi && arg1 == deref(q.since)
+//@   loop 1 invariant (forall i int :: 0 <= i && i < len(res) ==> res[i] != nil)
+//@   loop 2 invariant (forall i int :: 0 <= i && i < len(res) ==> res[i] != nil)
+//@   loop 1 invariant fresh(res) && rangeindex < len(q.ids) && count("query$2") <= rangeindex + 1 && len(res) <= count("query$2") && (called("query$2") ==> ret1("query$2") == nil) && s.version == old(s.version)
+//@   loop 2 invariant fresh(res) && rangeindex < len(s.vi) - start && count("query$2") == rangeindex + 1 && len(res) <= count("query$2") && (called("query$2") ==> ret1("query$2") == nil) && s.version == old(s.version)
+//@   loop 2 invariant q.since != nil ==> called("findVersionGreaterThan") && ret1("findVersionGreaterThan") && start == ret("findVersionGreaterThan")
+//@   loop 2 invariant q.since == nil ==> start == 0
+//@   noeffect Counter).Add
+//@   assigns nothing
+
+// ---- C02 / C12: the public query. Every parameter is applied, in order, to one fresh query object; a parameter
+// error is returned without scanning; otherwise the answer is exactly what the scan returns at the store's clock.
+//@ func (*Silences).Query
+//@   props C02 C12
+//@   nosafe
+//@   requires s != nil
+//@   at call dynamic:elem:param:params assert [one-query-object] fresh(arg0) && arg0 == q
+//@   at call Silences).query assert [scan-what-was-built] arg0 == s && arg1 == q
+//@   at call Silences).query assert [all-parameters-applied] count("dynamic:elem:param:params") == len(params)
+//@   at call Silences).query assert [no-parameter-error] called("dynamic:elem:param:params") ==> ret("dynamic:elem:param:params") == nil
+//@   ensures [answer-is-the-scan] called("Silences).query") ==> result0 == ret("Silences).query") && result1 == ret1("Silences).query") && result2 == ret2("Silences).query")
+//@   ensures [parameter-error] !called("Silences).query") ==> result2 != nil && result0 == nil && called("dynamic:elem:param:params") && result2 == ret("dynamic:elem:param:params")
+//@   ensures [results-non-nil] forall i int :: 0 <= i && i < len(result0) ==> result0[i] != nil
+//@   ensures [results-are-copies] result0 == nil || fresh(result0)
+//@   ensures [error-means-no-results] result2 != nil ==> result0 == nil
+//@   freshonly dynamic:elem:param:params
+//@   assigns nothing
+//@   loop 1 invariant rangeindex < len(params) && count("dynamic:elem:param:params") == rangeindex + 1 && (called("dynamic:elem:param:params") ==> ret("dynamic:elem:param:params") == nil) && !called("Silences).query")
+
+//@ func (*Silences).Version
+//@   props C02
+//@   requires s != nil
+//@   ensures [current] result == s.version
+//@   assigns nothing
+
+// the two filter-adding parameters append exactly one (non-nil) filter and leave the rest of the query alone
+//@ func QState$1
+//@   props C02 C12
+//@   requires q != nil
+//@   ensures [one-more-filter] result == nil && len(q.filters) == old(len(q.filters)) + 1 && q.filters[len(q.filters) - 1] != nil && q.ids == old(q.ids) && q.since == old(q.since)
+//@   ensures [earlier-filters-kept] forall i int :: 0 <= i && i < old(len(q.filters)) ==> q.filters[i] == old(q.filters[i])
+//@   assigns q.filters, q.filters[*]
+//@ func QMatches$1
+//@   props C02
+//@   requires q != nil
+//@   ensures [one-more-filter] result == nil && len(q.filters) == old(len(q.filters)) + 1 && q.filters[len(q.filters) - 1] != nil && q.ids == old(q.ids) && q.since == old(q.since)
+//@   ensures [earlier-filters-kept] forall i int :: 0 <= i && i < old(len(q.filters)) ==> q.filters[i] == old(q.filters[i])
+//@   assigns q.filters, q.filters[*]
+
+// ---- C02: the per-alert cache: a map from fingerprint to (version seen, ids of the non-expired matching silences).
+//@ func (*cache).get
+//@   props C02
+//@   requires c != nil
+//@   assumes forall k model.Fingerprint :: k in c.entries ==> c.entries[k] != nil
+//@   ensures [hit] (fp in c.entries) ==> result == c.entries[fp]
+//@   ensures [miss-is-empty-at-version-0] !(fp in c.entries) ==> fresh(result) && result.version == 0 && len(result.silenceIDs) == 0
+//@   ensures [non-nil] result != nil
+//@   assigns nothing
+//@ func (*cache).set
+//@   props C02
+//@   requires c != nil && c.entries != nil
+//@   ensures [stored] dom(c.entries) == setadd(old(dom(c.entries)), fp) && vals(c.entries) == upd(old(vals(c.entries)), fp, entry)
+//@   assigns c.entries[*]
+//@ func (*cache).delete
+//@   props C02
+//@   requires c != nil
+//@   ensures [removed] dom(c.entries) == setrem(old(dom(c.entries)), fp)
+//@   ensures [others-kept] forall k model.Fingerprint :: k != fp ==> c.entries[k] == old(c.entries[k])
+//@   assigns c.entries[*]
+//@ func newCacheEntry
+//@   inline
+//@ func (*cacheEntry).count
+//@   inline
+// alert garbage collection evicts exactly the collected fingerprints
+//@ func (*Silencer).PostGC
+//@   props C02
+//@   requires s != nil && s.cache != nil
+//@   ensures [evicted] forall i int :: 0 <= i && i < len(ff) ==> !(ff[i] in s.cache.entries)
+//@   ensures [others-kept] forall k model.Fingerprint :: (forall i int :: 0 <= i && i < len(ff) ==> ff[i] != k) ==> (k in s.cache.entries) == old(k in s.cache.entries) && s.cache.entries[k] == old(s.cache.entries[k])
+//@   loop 1 invariant rangeindex < len(ff) && s.cache == old(s.cache) && s.cache.entries == old(s.cache.entries)
+//@   loop 1 invariant forall i int :: 0 <= i && i <= rangeindex ==> !(ff[i] in s.cache.entries)
+//@   loop 1 invariant forall k model.Fingerprint :: (forall i int :: 0 <= i && i < len(ff) ==> ff[i] != k) ==> (k in s.cache.entries) == old(k in s.cache.entries) && s.cache.entries[k] == old(s.cache.entries[k])
+//@   assigns s.cache.entries[*]
+
+// ---- C02: the mute verdict. Silencer.Mutes asks the store two questions - "which of the silences cached for this
+// alert are still pending or active" (QIDs + QState) and "which silences indexed since the cached version are
+// pending or active and match" (QSince + QState + QMatches) - and answers "muted" exactly when one of the returned
+// silences is active at the store's clock; it takes the short cut only when the cache is at the store's version and
+// lists no silence; it files the new id list under the version the second question was answered at (or leaves the
+// version alone when that question was not asked) and tells the marker exactly the active ids.
+// Assumed: no writer changes the store between the two questions (C02's concurrency clause is not decided), so
+// two returned copies with one id carry the same start and end.
+//@ spec actv(sil *pb.Silence, now time.Time) bool = stateAt(sil, now) == SilenceStateActive
+//@ spec sameTimes(a *pb.Silence, b *pb.Silence) bool = a.Id == b.Id ==> tsT(a.StartsAt) == tsT(b.StartsAt) && tsT(a.EndsAt) == tsT(b.EndsAt)
+//@ spec oneStore(x []*pb.Silence, y []*pb.Silence) bool = forall i int, j int :: 0 <= i && i < len(x) && 0 <= j && j < len(y) ==> sameTimes(x[i], y[j])
+//@ spec anyActive(x []*pb.Silence, now time.Time) bool = exists i int :: 0 <= i && i < len(x) && actv(x[i], now)
+//@ spec seenActiveCounted(x []*pb.Silence, seen map[string]struct{}, now time.Time, n int) bool =
+//@     forall i int :: 0 <= i && i < len(x) && (x[i].Id in seen) && actv(x[i], now) ==> n > 0
+//@ spec seenLiveListed(x []*pb.Silence, seen map[string]struct{}, now time.Time, ids []string) bool =
+//@     forall i int :: 0 <= i && i < len(x) && (x[i].Id in seen) && stateAt(x[i], now) != SilenceStateExpired ==> x[i].Id in elems(ids)
+//@ spec allSeen(x []*pb.Silence, seen map[string]struct{}, upto int) bool = forall i int :: 0 <= i && i < upto ==> x[i].Id in seen
+//@ func (*Silencer).Mutes
+//@   props C02
+//@   nosafe
+//@   requires s != nil && s.silences != nil && s.cache != nil && s.cache.entries != nil
+//@   after call Silences).nowUTC assume oneStore(oldSils, oldSils) && oneStore(oldSils, newSils) && oneStore(newSils, newSils)
+//@   at call silence.QIDs assert [old-ids-requeried] arg0 == ret("cache).get").silenceIDs
+//@   at call silence.QSince assert [since-cached-version] arg0 == ret("cache).get").version
+//@   at call silence.QMatches assert [this-alert] arg0 == lset
+//@   at call silence.QState assert [pending-and-active] len(arg0) == 2 && ((arg0[0] == SilenceStateActive && arg0[1] == SilenceStatePending) || (arg0[0] == SilenceStatePending && arg0[1] == SilenceStateActive))
+//@   at call Silences).Query assert [questions] arg0 == s.silences && ((len(arg2) == 2 && arg2[0] == ret("silence.QIDs") && arg2[1] == ret("silence.QState") && len(ret("cache).get").silenceIDs) > 0 && !called("silence.QSince"))
+//@             || (len(arg2) == 3 && arg2[0] == ret("silence.QSince") && arg2[1] == ret("silence.QState") && arg2[2] == ret("silence.QMatches") && ret("cache).get").version != ret("Silences).Version")))
+//@   at call cache).set assert [entry-for-this-alert] arg0 == s.cache && arg1 == fpL(lset) && arg2 != nil
+//@   at call cache).set assert [version-of-the-answer] arg2.version == (ret("cache).get").version == ret("Silences).Version") ? ret("cache).get").version : ret1("Silences).Query"))
+//@   at call cache).set assert [ids-of-the-answer] called("Silences).nowUTC") ? arg2.silenceIDs == allIDs : len(arg2.silenceIDs) == 0
+//@   at call SetSilenced assert [marker-gets-the-active-ids] arg1 == fpL(lset) && ((called("Silences).nowUTC") && len(activeIDs) > 0) ? arg2 == activeIDs : len(arg2) == 0)
+//@   ensures [short-cut-only-when-current-and-empty] !called("Silences).Query") ==> !result && ret("cache).get").version == ret("Silences).Version") && len(ret("cache).get").silenceIDs) == 0
+//@   ensures [asks-for-cached-ids] len(ret("cache).get").silenceIDs) > 0 ==> called("silence.QIDs")
+//@   ensures [asks-for-newer-silences] ret("cache).get").version != ret("Silences).Version") ==> called("silence.QSince")
+//@   ensures [nothing-returned] called("Silences).Query") && !called("Silences).nowUTC") ==> !result && len(oldSils) + len(newSils) == 0
+//@   ensures [verdict] called("Silences).nowUTC") ==> result == (anyActive(oldSils, now) || anyActive(newSils, now))
+//@   ensures [cache-refreshed] called("Silences).Query") ==> called("cache).set")
+//@   at call cache).set assert [every-live-answer-is-cached] called("Silences).nowUTC") ==> (forall i int :: 0 <= i && i < len(oldSils) && stateAt(oldSils[i], now) != SilenceStateExpired ==> oldSils[i].Id in elems(arg2.silenceIDs))
+//@              && (forall i int :: 0 <= i && i < len(newSils) && stateAt(newSils[i], now) != SilenceStateExpired ==> newSils[i].Id in elems(arg2.silenceIDs))
+//@   ensures [marker-told] called("FromContext") && ret1("FromContext") ==> called("SetSilenced")
+//@   loop 1 invariant -1 <= rangeindex && rangeindex < 2 && fresh(activeIDs) && fresh(allIDs) && fresh(seen) && called("Silences).nowUTC") && now == ret("Silences).nowUTC")
+//@   loop 1 invariant oneStore(oldSils, oldSils) && oneStore(oldSils, newSils) && oneStore(newSils, newSils)
+//@   loop 1 invariant (forall i int :: 0 <= i && i < len(oldSils) ==> oldSils[i] != nil) && (forall i int :: 0 <= i && i < len(newSils) ==> newSils[i] != nil)
+//@   loop 1 invariant seenActiveCounted(oldSils, seen, now, len(activeIDs)) && seenActiveCounted(newSils, seen, now, len(activeIDs))
+//@   loop 1 invariant (rangeindex >= 0 ==> allSeen(oldSils, seen, len(oldSils))) && (rangeindex >= 1 ==> allSeen(newSils, seen, len(newSils)))
+//@   loop 1 invariant len(activeIDs) > 0 ==> anyActive(oldSils, now) || anyActive(newSils, now)
+//@   loop 1 invariant base(activeIDs) != base(allIDs) && seenLiveListed(oldSils, seen, now, allIDs) && seenLiveListed(newSils, seen, now, allIDs)
+//@   loop 2 invariant (rangeindex1 == -1 || rangeindex1 == 0) && sils == (rangeindex1 == -1 ? oldSils : newSils) && -1 <= rangeindex && rangeindex < len(sils)
+//@   loop 2 invariant fresh(activeIDs) && fresh(allIDs) && fresh(seen) && called("Silences).nowUTC") && now == ret("Silences).nowUTC")
+//@   loop 2 invariant oneStore(oldSils, oldSils) && oneStore(oldSils, newSils) && oneStore(newSils, newSils)
+//@   loop 2 invariant (forall i int :: 0 <= i && i < len(oldSils) ==> oldSils[i] != nil) && (forall i int :: 0 <= i && i < len(newSils) ==> newSils[i] != nil)
+//@   loop 2 invariant seenActiveCounted(oldSils, seen, now, len(activeIDs)) && seenActiveCounted(newSils, seen, now, len(activeIDs))
+//@   loop 2 invariant (rangeindex1 == 0 ==> allSeen(oldSils, seen, len(oldSils))) && allSeen(sils, seen, rangeindex + 1)
+//@   loop 2 invariant len(activeIDs) > 0 ==> anyActive(oldSils, now) || anyActive(newSils, now)
+//@   loop 2 invariant base(activeIDs) != base(allIDs) && seenLiveListed(oldSils, seen, now, allIDs) && seenLiveListed(newSils, seen, now, allIDs)
+//@   noeffect RecordEvent SetSilenced
